@@ -22,10 +22,17 @@ def coordToJson : Coord → Json
   | .int i => toJson i
   | .str s => Json.str s
 
+/-- a JSON number as the exact rational it denotes (`0.5` is mantissa 5, exponent 1): float arguments such as the exponent of
+`a.power(0.5)` reach the model as they are written -/
+def ratOfJson (j : Json) : Rat :=
+  match j with
+  | .num n => (n.mantissa : Rat) / ((10 ^ n.exponent : Nat) : Rat)
+  | _ => 0
+
 def staticOfJson (j : Json) : Static :=
   match j with
   | .str s => .str s
-  | _ => .num (asInt j : Rat)
+  | _ => .num (ratOfJson j)
 
 def ratStr (q : Rat) : String :=
   if q.den = 1 then toString q.num else toString q.num ++ "/" ++ toString q.den
